@@ -33,6 +33,9 @@ def run(ctx):
     prog = mirq.Program(ctx.facts.mir())
     ctx.not_decided += ["exactness of the cascade for every store shape (only coverage of the dependency indices is decided)", "that every surviving reference resolves (the expect(\"handle must be valid\") sites are sound only under this property)"]
 
+    # the cascades find dependents through the reverse indices only: a forward data reference written without its index entry is invisible to them
+    from props.c01 import lowlevel_rule
+    lowlevel_rule(ctx, prog, rid="C02.INDEXED")
     rank_rule(ctx, syn)
     revisit_rule(ctx, syn)
     live_rule(ctx, prog)
